@@ -2,14 +2,14 @@
 #include "scen_future.h"
 namespace hz {
 static const Info I = {
-    "C02", 1, 16, 60000, true, true,
+    "C02", 1, 18, 60000, true, true,
     "rapidcheck generates (program, schedule, faults); the program decodes to a value type, ONE resolver (value / exception / drop / promise destruction / "
     "completion of an async coroutine bound to the future, returning or throwing / promise moved away then resolved / bind(value)() / unhandled_exception() / promise_with_default destroyed) and 1..3 waiters on their own threads of kinds {co_await f, co_await f.has_value(), "
-    "f.wait(), f.sync(), subscribe(custom awaiter), callback_await, polling ready(), force_wait() inside a coroutine, operator bool then value()} with generated yields, waiters or resolver spawned first; spurious weak-CAS failures injected. "
+    "f.wait(), f.sync(), subscribe(custom awaiter), callback_await, polling ready(), force_wait() inside a coroutine, operator bool then value(), co_await cocls::parallel(f) - continuing in a new detached thread} with generated yields, waiters or resolver spawned first; spurious weak-CAS failures injected. "
     "Oracle: each waiter released exactly once, ready()==true at release, release after the resolver began, complete result observed (checksummed payload / same exception / no-value), "
     "deadlock detector (lost wake-up), ASan (released waiter touched). Non-trivial = some waiter registered during or after the resolution (classes before/overlap/after counted) and >=1 context switch; "
     "distinct = hash(decoded program, executed switch trace).",
-    scen_future::class_names, 8, scen_future::counter_names, 2};
+    scen_future::class_names, 8, scen_future::counter_names, 3};
 const Info &info() { return I; }
 void run_case(Reader &r) { scen_future::run(r, scen_future::M_C02); }
 std::string describe(Reader &r) { return scen_future::describe(scen_future::decode(r, scen_future::M_C02)); }
